@@ -67,6 +67,8 @@ class Deep:
                 deep.logging.exception("Failed to process plugin resource {}", provider.name)
 
         self.config.resource = default_resource
+        # a shutdown closed the task handler: without this a second start() fails in its first config update
+        self.task_handler.open()
         self.trigger_handler.start()
         self.grpc.start()
         self.poll.start()
